@@ -1,0 +1,276 @@
+//! Hooks for external verification tooling. Only compiled with `--cfg lexgen_verif`.
+//!
+//! - `lexer_verif!` runs the real `lexer!` expansion (twice, catching panics) and expands to a
+//!   single string constant describing the outcome, so that definitions can be expanded without
+//!   compiling the generated code.
+//! - While a `lexer!` expansion runs, intermediate artifacts (automata, entry maps, work list
+//!   events) are collected and written as JSON to `$LEXGEN_VERIF_DIR/<LexerName>.json`.
+//! - A watchdog aborts the compiler process when an expansion takes longer than
+//!   `$LEXGEN_VERIF_TIMEOUT` seconds, after recording which lexer was being expanded.
+
+use proc_macro::{TokenStream, TokenTree};
+
+use std::cell::RefCell;
+use std::panic::{catch_unwind, AssertUnwindSafe};
+use std::sync::atomic::{AtomicBool, Ordering};
+use std::sync::Arc;
+use std::time::{Duration, Instant};
+
+const MAX_TRACE_EVENTS: usize = 20_000;
+
+#[derive(Default)]
+struct Dump {
+    name: String,
+    fields: Vec<(String, String)>,
+    bt_trace: Vec<String>,
+    bt_truncated: bool,
+}
+
+thread_local! {
+    static DUMP: RefCell<Option<Dump>> = const { RefCell::new(None) };
+}
+
+fn dump_dir() -> Option<String> {
+    std::env::var("LEXGEN_VERIF_DIR").ok().filter(|s| !s.is_empty())
+}
+
+pub struct Session {
+    cancel: Arc<AtomicBool>,
+}
+
+/// Called when the lexer name is known. Starts collecting artifacts and the watchdog.
+pub fn begin(name: &str) -> Session {
+    DUMP.with(|d| {
+        *d.borrow_mut() = Some(Dump {
+            name: name.to_string(),
+            ..Default::default()
+        })
+    });
+
+    let cancel = Arc::new(AtomicBool::new(false));
+
+    let timeout: u64 = std::env::var("LEXGEN_VERIF_TIMEOUT")
+        .ok()
+        .and_then(|s| s.parse().ok())
+        .unwrap_or(0);
+
+    if timeout != 0 {
+        let cancel = cancel.clone();
+        let name = name.to_string();
+        let dir = dump_dir();
+        std::thread::spawn(move || {
+            let start = Instant::now();
+            while start.elapsed() < Duration::from_secs(timeout) {
+                std::thread::sleep(Duration::from_millis(50));
+                if cancel.load(Ordering::SeqCst) {
+                    return;
+                }
+            }
+            if let Some(dir) = dir {
+                let _ = std::fs::write(format!("{}/{}.hang", dir, name), name.as_bytes());
+            }
+            eprintln!("LEXGEN_VERIF HANG {}", name);
+            std::process::exit(97);
+        });
+    }
+
+    Session { cancel }
+}
+
+impl Drop for Session {
+    fn drop(&mut self) {
+        self.cancel.store(true, Ordering::SeqCst);
+        let dump = DUMP.with(|d| d.borrow_mut().take());
+        if std::thread::panicking() {
+            return;
+        }
+        if let (Some(dump), Some(dir)) = (dump, dump_dir()) {
+            let mut fields: Vec<String> = vec![format!("\"name\":{:?}", dump.name)];
+            for (k, v) in dump.fields {
+                fields.push(format!("{:?}:{}", k, v));
+            }
+            fields.push(format!("\"bt_trace\":[{}]", dump.bt_trace.join(",")));
+            fields.push(format!("\"bt_truncated\":{}", dump.bt_truncated));
+            let _ = std::fs::write(
+                format!("{}/{}.json", dir, dump.name),
+                format!("{{{}}}\n", fields.join(",")),
+            );
+        }
+    }
+}
+
+/// Record a JSON-valued field of the current dump.
+pub fn field(key: &str, json: String) {
+    DUMP.with(|d| {
+        if let Some(dump) = d.borrow_mut().as_mut() {
+            dump.fields.push((key.to_string(), json));
+        }
+    })
+}
+
+/// Record a string-valued field of the current dump.
+pub fn field_str(key: &str, value: &str) {
+    field(key, json_string(value))
+}
+
+/// One iteration of the backtrack analysis work list: popped state, popped flag, and the flag
+/// recorded for the state before this iteration (-1: not visited yet).
+pub fn bt_visit(state: usize, backtrack: bool, prev: Option<bool>) {
+    DUMP.with(|d| {
+        if let Some(dump) = d.borrow_mut().as_mut() {
+            if dump.bt_trace.len() >= MAX_TRACE_EVENTS {
+                dump.bt_truncated = true;
+                return;
+            }
+            dump.bt_trace.push(format!(
+                "{{\"s\":{},\"b\":{},\"prev\":{}}}",
+                state,
+                backtrack,
+                match prev {
+                    None => -1,
+                    Some(false) => 0,
+                    Some(true) => 1,
+                }
+            ));
+        }
+    })
+}
+
+pub fn json_string(s: &str) -> String {
+    let mut out = String::with_capacity(s.len() + 2);
+    out.push('"');
+    for c in s.chars() {
+        match c {
+            '"' => out.push_str("\\\""),
+            '\\' => out.push_str("\\\\"),
+            '\n' => out.push_str("\\n"),
+            '\r' => out.push_str("\\r"),
+            '\t' => out.push_str("\\t"),
+            c if (c as u32) < 0x20 => out.push_str(&format!("\\u{:04x}", c as u32)),
+            c => out.push(c),
+        }
+    }
+    out.push('"');
+    out
+}
+
+fn run_once(input: TokenStream) -> Result<(String, Vec<String>), String> {
+    match catch_unwind(AssertUnwindSafe(|| crate::lexer(input))) {
+        Ok(tokens) => {
+            let items = item_names(tokens.clone());
+            Ok((tokens.to_string(), items))
+        }
+        Err(payload) => {
+            let msg = if let Some(s) = payload.downcast_ref::<&str>() {
+                s.to_string()
+            } else if let Some(s) = payload.downcast_ref::<String>() {
+                s.clone()
+            } else {
+                "<non-string panic payload>".to_string()
+            };
+            Err(msg)
+        }
+    }
+}
+
+/// `lexer_verif! { <Ident>; <lexer! input> }`: expands to `pub const <Ident>: &str = "<json>";`
+/// where the JSON describes the outcome of expanding `<lexer! input>` with the real macro.
+pub fn lexer_verif(input: TokenStream) -> TokenStream {
+    let mut iter = input.into_iter();
+
+    let ident = match iter.next() {
+        Some(TokenTree::Ident(ident)) => ident.to_string(),
+        other => panic!("lexer_verif: expected identifier, found {:?}", other),
+    };
+
+    match iter.next() {
+        Some(TokenTree::Punct(p)) if p.as_char() == ';' => {}
+        other => panic!("lexer_verif: expected `;`, found {:?}", other),
+    }
+
+    let rest: TokenStream = iter.collect();
+
+    let t0 = Instant::now();
+    let first = run_once(rest.clone());
+    let millis = t0.elapsed().as_millis();
+    let second = run_once(rest);
+
+    let (outcome, message, code_len, code_hash) = match &first {
+        Ok((code, _)) => {
+            if code.contains("compile_error") {
+                ("compile_error", code.clone(), code.len(), fnv(code))
+            } else {
+                ("ok", String::new(), code.len(), fnv(code))
+            }
+        }
+        Err(msg) => ("panic", msg.clone(), 0, 0),
+    };
+
+    let same = first == second;
+
+    let items = match &first {
+        Ok((_, items)) => items.clone(),
+        Err(_) => vec![],
+    };
+    let items: Vec<String> = items.iter().map(|s| json_string(s)).collect();
+
+    let json = format!(
+        "{{\"id\":{},\"outcome\":{},\"message\":{},\"same\":{},\"millis\":{},\"code_len\":{},\"code_hash\":{},\"items\":[{}]}}",
+        json_string(&ident),
+        json_string(outcome),
+        json_string(&message),
+        same,
+        millis,
+        code_len,
+        code_hash % 1_000_000_007,
+        items.join(",")
+    );
+
+    if let Some(dir) = dump_dir() {
+        let _ = std::fs::write(format!("{}/{}.outcome.json", dir, ident), format!("{}\n", json));
+        if let Ok((code, _)) = &first {
+            if std::env::var("LEXGEN_VERIF_CODE").is_ok() {
+                let _ = std::fs::write(format!("{}/{}.code.rs", dir, ident), code);
+            }
+        }
+    }
+
+    format!(
+        "#[allow(dead_code)] pub const {}: &str = {:?};",
+        ident, json
+    )
+    .parse()
+    .unwrap()
+}
+
+fn fnv(s: &str) -> u64 {
+    let mut h: u64 = 0xcbf29ce484222325;
+    for b in s.bytes() {
+        h ^= b as u64;
+        h = h.wrapping_mul(0x100000001b3);
+    }
+    h
+}
+
+/// Names of the items the expansion declares at module level: `fn`, `static`, `struct`, `enum`,
+/// `type` followed by an identifier, among the top-level token trees.
+fn item_names(tokens: TokenStream) -> Vec<String> {
+    let mut names = vec![];
+    let mut prev: Option<String> = None;
+    for tree in tokens {
+        match tree {
+            TokenTree::Ident(ident) => {
+                let ident = ident.to_string();
+                if let Some(kw) = &prev {
+                    if matches!(kw.as_str(), "fn" | "static" | "struct" | "enum" | "type") {
+                        names.push(format!("{} {}", kw, ident));
+                    }
+                }
+                prev = Some(ident);
+            }
+            _ => prev = None,
+        }
+    }
+    names.sort();
+    names
+}
